@@ -12,6 +12,9 @@ Oracle (implementation side, numpy): objective monotone / quantitative descent f
 O(1/k^2) bounds against an accurately computed minimiser, saddle point is a fixed point of PDHG, M-metric in
 the skewed pairing non-increasing, in-place update of the caller's x / u, and a plain numpy re-statement of
 the documented update rules (gives expected/observed when model and implementation disagree).
+Aliasing gradients: GradientMethod is also run on f = 1/2||x-y||^2 with a gradf that returns its argument, a view of it
+(lambda x: x, linop Identity.N / Reshape.N / Transpose.N, R.H*R) or a persistent caller-owned buffer; the trajectory must be
+the same and the buffer must not be written by update().
 Not alarms: the same-time pairing (x_k,u_k) is not monotone (counted in the evidence only); the accelerated
 branch writes `tau *= theta` / `sigma /= theta` into a caller-supplied step ARRAY (recorded only).
 """
@@ -808,6 +811,7 @@ VALIDATED = [
     "convergence of the iterates to the minimiser; O(1/k^2) of accelerated PDHG (not proved; trajectories only)",
     "Fejer monotonicity with ARRAY (diagonal) steps: checked by the oracle, proved for scalar steps",
     "model == implementation: by trajectory correspondence on the sampled problems (floating point, 1e-9)",
+    "gradf returning its argument / a view / a caller-owned buffer: dynamic checks on the sampled runs (trajectory, buffer contents)",
     "in-place update of the caller's x / u: dynamic check (object identity + contents) on every run; the alias IR of DESIGN 2.5 is not built",
     "resid (GradientMethod incl. the accelerated max(||x-x_old||, ||x-z||)/alpha; PDHG primal+dual): modelled and compared, no theorem",
 ]
